@@ -31,7 +31,7 @@ var Dict = []string{
 	"1.0.0.0.0.0.0.0.0.0.0.0.0.0.0.0.0.0.0.0.0.0.0.0.0.0.0.0.0.0.0.0.0.ip6.arpa",
 	"example.com", "example.com.", "EXAMPLE.COM", "-a.com", "a-.com", "a..com", "_srv._tcp.example.com",
 	"3com.xn--4dbrk0ce", "_sip._tcp.1and1.xn--4dbrk0ce", "9gag.xn--mgbh0fb.example", "3com.ישראל", "1.مصر", "a.א1.b",
-	"xn--", "xn--a", "xn--p1ai", "XN--P1AI", "xn--a-", "xn--xn--a--", "a.xn--com-", "4.3.2.1.xn--in-addr-.arpa", "4.3.2.1.in-addr.xn--arpa-", "xn--4-.3.2.1.in-addr.arpa", "XN--0.com", "Xn--abc-.com",
+	"xn--", "xn--a", "xn--p1ai", "XN--P1AI", "xn--a-", "xn--xn--a--", "a.xn--com-", "4.3.2.1.xn--in-addr-.arpa", "4.3.2.1.in-addr.xn--arpa-", "xn--4-.3.2.1.in-addr.arpa", "XN--0.com", "Xn--abc-.com", "my-xn--host.xn--0.example", "a-xn--b.xn--abc-.com", "a-xn--b.com",
 	"1.2.3.4:8\U00010030", "1.2.3.\U00010034", "1.2.3.4\u0130", "[::1]:\u0138\u0130", "пример.рф", "123", "a.123", "1.2.3.4.5",
 	strings.Repeat("a", 63), strings.Repeat("a", 64), strings.Repeat("a", 63) + ".com",
 	strings.Repeat("a.", 126) + "a", strings.Repeat("a.", 127) + "a", strings.Repeat("ab.", 84) + "c",
@@ -140,9 +140,12 @@ var (
 		c := rapid.SampledFrom([]string{"a", "7", "x"}).Draw(t, "c")
 		return strings.Repeat(c, n)
 	})
-	labHyphen = rapid.SampledFrom([]string{"-", "-a", "a-", "a-b", "a--b", "-a-", "--", "a-1", "1-a", "xn--a", "xn--", "xn--p1ai", "XN--P1AI", "xn--80akhbyknj4f", "xn--zz-zz", "xn--4dbrk0ce", "xn--mgbh0fb", "xn--ngbc5azd", "xn--fiqs8s", "xn--mgberp4a5d4ar", "XN--4DBRK0CE"})
-	labIDN    = rapid.SampledFrom([]string{"ישראל", "مصر", "السعودية", "א1", "1א", "aא", "א-", "١٢", "пример", "рф", "例え", "ß", "İ", "K", "é", "straße", "ǆ", "‍", "a‍b", "ａ", "１", "a。b", "\xff", "a\xffb", "\xc3\x28", "a b", "a#b", "a\tb", "a\x00", "*", "a_b", "_", "__a", "_-a", "_a-", "é́"})
-	labAny    = rapid.StringN(0, 6, -1)
+	labHyphen = rapid.SampledFrom([]string{"-", "-a", "a-", "a-b", "a--b", "-a-", "--", "a-1", "1-a", "xn--a", "xn--", "xn--p1ai",
+		// the ACE prefix in the middle of a label (no A-label: a decoy for code that searches the name for "xn--"),
+		// malformed and shrinking A-labels to go with it in the same name
+		"a-xn--b", "my-xn--host", "axn--", "xn--0", "xn--abc-", "XN--0", "XN--P1AI", "xn--80akhbyknj4f", "xn--zz-zz", "xn--4dbrk0ce", "xn--mgbh0fb", "xn--ngbc5azd", "xn--fiqs8s", "xn--mgberp4a5d4ar", "XN--4DBRK0CE"})
+	labIDN = rapid.SampledFrom([]string{"ישראל", "مصر", "السعودية", "א1", "1א", "aא", "א-", "١٢", "пример", "рф", "例え", "ß", "İ", "K", "é", "straße", "ǆ", "‍", "a‍b", "ａ", "１", "a。b", "\xff", "a\xffb", "\xc3\x28", "a b", "a#b", "a\tb", "a\x00", "*", "a_b", "_", "__a", "_-a", "_a-", "é́"})
+	labAny = rapid.StringN(0, 6, -1)
 
 	// Label generates one label of any class.
 	label = rapid.OneOf(labLDH, labLDH, labLDH, labUnder, labUnderLn, labDigits, labLen, labHyphen, labIDN, labAny, rapid.Just(""))
